@@ -127,8 +127,8 @@ Proof.
   (* a rune below 128 is encoded in one byte below 128, but the first byte is >= 128 *)
   destruct (Z_lt_ge_dec r 128) as [L|G]; [|lia]. exfalso.
   pose proof (valid_rune_range r V) as R.
-  rewrite encode_rune_ascii in E by lia. destruct w as [|[|w']]; cbn [firstn] in E; try discriminate.
-  inversion E as [E']. pose proof (f_equal bz E') as E2. rewrite bz_zb in E2 by lia. lia.
+  rewrite encode_rune_ascii in E by lia. destruct w as [|w']; cbn [firstn] in E; [discriminate|].
+  injection E as E' _. pose proof (f_equal bz E') as E2. rewrite bz_zb in E2 by lia. lia.
 Qed.
 
 Lemma high_noctl l : Forall (fun b => 128 <= bz b) l -> Forall noctl l.
